@@ -1367,8 +1367,18 @@ NiShape* NifFile::CloneShape(NiShape* srcShape, const std::string& destShapeName
 	srcNif->GetShapeBoneList(srcShape, srcBoneList);
 
 	auto destBoneCont = hdr.GetBlock(destShape->SkinInstanceRef());
-	if (destBoneCont)
+	if (destBoneCont) {
 		destBoneCont->boneRefs.Clear();
+
+		if (srcNif != this) {
+			// The skeleton root pointer still holds a block index of the source file
+			uint32_t rootId = GetBlockID(rootNode);
+			if (auto skinInst = dynamic_cast<NiSkinInstance*>(destBoneCont))
+				skinInst->targetRef.index = rootId;
+			else if (auto bsSkinInst = dynamic_cast<BSSkinInstance*>(destBoneCont))
+				bsSkinInst->targetRef.index = rootId;
+		}
+	}
 
 	if (rootNode && srcRootNode) {
 		std::function<void(NiNode*)> cloneNodes = [&](NiNode* srcNode) -> void {
